@@ -18,3 +18,13 @@ check('C05', 'fault_enumeration',
       'Reads: every delivered residue, three chunkings, boundary (quick) or all 1..2024 (thorough) next sizes, then size-less read and reads at the end, against a payload+cursor model. unblock_1014: every truncation length and all 255 substitutions of every trailer byte of 1..4-block files must be refused, other substitutions change exactly one payload byte. The fault space named by the property is enumerated per base file.',
       'Trusts vlib/refvbs.py. read(0)/negative sizes are outside the property and not generated.',
       'DESIGN.md section 4 C05')
+check('C09', 'fault_enumeration',
+      'Hypothesis-generated VBS/1014/IPM files x every truncation offset, vs independent walk of the surviving bytes',
+      'For each generated file (record lengths biased to block edges) every truncation offset 0..len(file) is read back; the reader must deliver exactly the records the reference walk finds complete, then end or raise the library error. The crash-point space is enumerated completely per file; the files are sampled.',
+      'Trusts vlib/refvbs.py. Both endings (clean end / MciIpmDataError) are accepted at every offset.',
+      'DESIGN.md section 4 C09')
+check('C11', 'exploration',
+      'exhaustive finalisation histories (close / with-exit, length 1..3) x writer class x format x file kind + Hypothesis record lists; read-back and byte-stability oracle',
+      'All 14 sequences over {close(), context-manager exit} up to length 3 are run for both writer classes, both formats, in-memory and real files, over enumerated and generated record lists. The file must read back as written and must not change after the first finalisation. The bounded history space is covered completely.',
+      'The wrapped file object stays open after close(), as in the documented usage.',
+      'DESIGN.md section 4 C11')
